@@ -12,6 +12,8 @@ CONSTANTS
   ProbeNs <- ProbesFaithful
   ProbeUids <- UidsOwn
   MaxOld = 1
+  Transports <- TrIP
+  ScmpTypes <- ScmpNone
 VIEW viewU
 INVARIANTS SentLeavesPool FieldCount NoShrink PoolCap StaysFull RespCount FreshCookiesOpen
 PROPERTIES SingleUse Answered Fresh
